@@ -73,6 +73,7 @@ type Path struct {
 	traceLines []string
 	onceDone   map[*value]bool
 	bypass     string
+	prelude    bool
 	dom        map[string]*byteDom
 	entangled  map[string]bool
 	domDecided int
@@ -405,8 +406,21 @@ func (p *Path) globalAddr(g *ssa.Global) *value {
 	if a, ok := p.globals[g]; ok {
 		return a
 	}
-	if a, ok := p.eng.sharedGlobal(g); ok {
-		return a
+	if shareablePkg(g.Pkg) {
+		if p.prelude {
+			p.initPackage(g.Pkg) // p.globals is the shared table; the lock is held
+			if a, ok := p.globals[g]; ok {
+				return a
+			}
+		} else {
+			a, err := p.eng.sharedGlobalInit(g)
+			if err != "" {
+				panic(unsupported{err})
+			}
+			return a
+		}
+	} else if p.prelude {
+		panic(unsupported{"initialisation of a shared package touches package " + g.Pkg.Pkg.Path()})
 	}
 	p.initPackage(g.Pkg)
 	if a, ok := p.globals[g]; ok {
@@ -445,7 +459,8 @@ type Engine struct {
 	stubsSeen    map[string]bool
 	inconclusive map[string][]string
 
-	sharedMu   sync.Mutex
+	sharedRW   sync.RWMutex
+	sharedErr  map[*ssa.Package]string
 	shared     map[*ssa.Global]*value
 	sharedPkgs map[*ssa.Package]bool
 
@@ -482,11 +497,66 @@ func (e *Engine) noteInconclusive(h, why string) {
 	e.mu.Unlock()
 }
 
-func (e *Engine) sharedGlobal(g *ssa.Global) (*value, bool) {
-	e.sharedMu.Lock()
-	defer e.sharedMu.Unlock()
+// shareablePkg: packages whose globals are initialised once (concretely) and then
+// shared by all paths: the standard library, goyang and the protobuf message
+// packages. Their package-level state is treated as immutable after init.
+func shareablePkg(pkg *ssa.Package) bool {
+	pp := pkg.Pkg.Path()
+	first := pp
+	if i := strings.IndexByte(pp, '/'); i >= 0 {
+		first = pp[:i]
+	}
+	if !strings.Contains(first, ".") {
+		return true // standard library
+	}
+	for _, pre := range []string{"github.com/openconfig/goyang/", "github.com/openconfig/gnmi/", "google.golang.org/", "github.com/golang/protobuf", "github.com/openconfig/ygot/proto/", "github.com/kylelemons/", "github.com/derekparker/"} {
+		if strings.HasPrefix(pp, pre) {
+			return true
+		}
+	}
+	return false
+}
+
+func (e *Engine) sharedGlobalInit(g *ssa.Global) (a *value, errMsg string) {
+	e.sharedRW.RLock()
 	a, ok := e.shared[g]
-	return a, ok
+	e.sharedRW.RUnlock()
+	if ok {
+		return a, ""
+	}
+	e.sharedRW.Lock()
+	defer e.sharedRW.Unlock()
+	if a, ok := e.shared[g]; ok {
+		return a, ""
+	}
+	if msg, bad := e.sharedErr[g.Pkg]; bad {
+		return nil, msg
+	}
+	pp := &Path{eng: e, prelude: true, concreteInputs: map[string]interface{}{}, fuel: 200000000,
+		globals: e.shared, initDone: e.sharedPkgs, names: map[string]int{}, status: "ok",
+		dom: map[string]*byteDom{}, entangled: map[string]bool{}}
+	func() {
+		defer func() {
+			if r := recover(); r != nil {
+				switch r := r.(type) {
+				case unsupported:
+					errMsg = "init of " + g.Pkg.Pkg.Path() + ": " + r.msg
+				case pathEnd:
+					errMsg = "init of " + g.Pkg.Pkg.Path() + ": " + r.status + " " + r.msg
+				case targetPanic:
+					errMsg = "init of " + g.Pkg.Pkg.Path() + " panicked: " + r.msg
+				default:
+					errMsg = fmt.Sprintf("init of %s: engine bug: %v", g.Pkg.Pkg.Path(), r)
+				}
+			}
+		}()
+		pp.initPackage(g.Pkg)
+	}()
+	if errMsg != "" {
+		e.sharedErr[g.Pkg] = errMsg
+		return nil, errMsg
+	}
+	return e.shared[g], ""
 }
 
 func (e *Engine) skipFunc(fn *ssa.Function) bool {
